@@ -1,5 +1,7 @@
 package myinterp
 
+import "golang.org/x/tools/go/ssa"
+
 
 // ---- deterministic cooperative fibers (spike) ----
 // Exactly one fiber runs at a time (baton). Blocking operations spin with yield().
@@ -17,6 +19,7 @@ type fgroup struct {
 	id     int
 	parked *fiber // fiber suspended at a marked yield point (or not yet started)
 	live   int
+	waitMu *value // suspended until this mutex (held by another group) is free
 }
 
 type sched struct {
@@ -121,6 +124,9 @@ func (s *sched) pickGroup(include *fgroup) *fiber {
 	var cands []*fgroup
 	for _, g := range s.groups {
 		if g.id != 0 && g.live > 0 && (g.parked != nil || g == include) {
+			if g.waitMu != nil && mtxHeld[g.waitMu] != nil {
+				continue // still blocked on a mutex another group holds
+			}
 			cands = append(cands, g)
 		}
 	}
@@ -257,6 +263,10 @@ func init() {
 			LockHook(fr, p, true)
 		}
 		for mtxHeld[p] != nil {
+			if h := mtxHeld[p]; h.grp != SC.cur.grp && SC.cur.grp.id != 0 {
+				SC.blockGroupOn(p)
+				continue
+			}
 			SC.yieldBlocked()
 		}
 		mtxHeld[p] = SC.cur
@@ -301,7 +311,7 @@ func init() {
 		return nil
 	}
 	// symYield(): marked scheduling point; the next group to run is a decision.
-	yieldFn := func(fr *frame, a []value) value {
+	yieldFn = func(fr *frame, a []value) value {
 		me := SC.cur
 		if me.grp.id == 0 {
 			return nil
@@ -336,3 +346,80 @@ func init() {
 
 // LockHook, when set, observes Lock/Unlock (C19 lock discipline).
 var LockHook func(fr *frame, m *value, acquire bool)
+
+
+// ---- lock-discipline monitor (C19) ----
+// GuardedGlobals maps a package-level variable to the mutex variable that must
+// be held while it is accessed.  Accesses by spawned clients are checked and,
+// like Lock/Unlock, are marked scheduling points.
+var GuardedGlobals map[string]string
+var raceCount int
+var raceLog []string
+
+func guardedAccess(fr *frame, g *ssa.Global, muName string) {
+	if SC == nil || SC.cur == nil || SC.cur.grp.id == 0 {
+		return // the main fiber (package init, harness set-up) is single-threaded
+	}
+	var mu *ssa.Global
+	for gg := range fr.i.globals {
+		if gg.String() == muName {
+			mu = gg
+		}
+	}
+	held := false
+	if mu != nil {
+		// the mutex is the global cell itself (sync.Mutex value): Lock receives its address
+		if f := mtxHeld[fr.i.globals[mu]]; f != nil && f.grp == SC.cur.grp {
+			held = true
+		}
+	}
+	if !held {
+		raceCount++
+		raceLog = append(raceLog, g.String())
+		X.events = append(X.events, "unguarded-access:"+g.Name())
+	}
+	if yieldFn != nil && Params["schedglobals"] == 1 {
+		yieldFn(fr, nil)
+	}
+}
+
+var yieldFn func(fr *frame, a []value) value
+
+func init() {
+	pathResets = append(pathResets, func() { raceCount = 0; raceLog = nil })
+	Intrinsics["symGuard"] = func(fr *frame, a []value) value {
+		if GuardedGlobals == nil {
+			GuardedGlobals = map[string]string{}
+		}
+		GuardedGlobals[strArg(a[0])] = strArg(a[1])
+		return nil
+	}
+	Intrinsics["symUnguardedAccesses"] = func(fr *frame, a []value) value { return raceCount }
+	Intrinsics["symLocksHeld"] = func(fr *frame, a []value) value { return len(mtxHeld) }
+	LockHook = func(fr *frame, m *value, acquire bool) {
+		if Params["schedlocks"] == 1 && SC.cur.grp.id != 0 && yieldFn != nil {
+			yieldFn(fr, nil)
+		}
+	}
+}
+
+
+// blockGroupOn suspends the running client group until mutex p, held by a
+// fiber of another group, is released: another runnable group continues.  If
+// no group can run the clients are deadlocked.
+func (s *sched) blockGroupOn(p *value) {
+	me := s.cur
+	g := me.grp
+	g.parked = me
+	g.waitMu = p
+	nx := s.pickGroup(nil)
+	if nx == s.fibers[0] {
+		// nobody else can run: if main is waiting in symJoin this is a deadlock
+		g.parked = nil
+		g.waitMu = nil
+		panic(pathAbort{"DEADLOCK: every client is blocked on a mutex"})
+	}
+	s.progressed()
+	s.switchTo(me, nx)
+	g.waitMu = nil
+}
